@@ -543,3 +543,7 @@ def run(pm, ctx):
     run_decisions(pm, ctx, 'C02-RD', OWN['C02'])
     from .. import exprdrift
     exprdrift.run(pm, ctx, 'C02-RE', OWN['C02'])
+    from ..conddrift import run_calls
+    run_calls(pm, ctx, 'C02-RC', OWN['C02'])
+    from .. import memo
+    memo.run(pm, ctx, 'C02-MK', OWN['C02'])
